@@ -21,6 +21,7 @@ import Driver.Aiff
 import Driver.Ledger
 import Driver.Meta
 import Driver.Ieee
+import Driver.Small1
 open Sf
 
 def lawOf (s : String) : Option G711.Law :=
@@ -86,4 +87,5 @@ def main (args : List String) : IO UInt32 := do
   | "ledger" :: _ => LedgerDriver.cmd
   | "meta" :: rest => do MetaCmd.run rest (← readLines)
   | "ieee" :: rest => Driver.Ieee.cmd rest
+  | "small1" :: rest => Driver.Small1.cmd rest
   | _ => IO.eprintln "usage: sfmodel <g711|...> ..."; return 2
